@@ -209,6 +209,71 @@ def annotation_options(console, table, incoming, w, justify):
                                no_wrap=incoming.no_wrap, highlight=table.highlight)
 
 
+OPT_DEFAULTS = dict(title=None, caption=None, width=None, min_width=None, box=None, padding=(0, 1), collapse_padding=False, pad_edge=True,
+                    expand=False, show_header=True, show_footer=False, show_edge=True, show_lines=False, leading=0, title_justify="center",
+                    caption_justify="center", row_styles=None, safe_box=None, style="none", border_style=None,
+                    header_style="table.header", footer_style="table.footer", title_style=None, caption_style=None)
+COL_DEFAULTS = dict(justify="left", overflow="ellipsis", width=None, min_width=None, max_width=None, ratio=None, no_wrap=False,
+                    style="", header_style="", footer_style="")
+
+
+def mutate_table(table, before, after):
+    """Bring the SAME table object from the state `build_table(before)` made to the state `build_table(after)` would make, through
+    the attributes / methods a user has: table options, column attributes, header / footer renderables, add_row, add_column, a cell
+    replaced.  `after` must extend `before` (same leading columns and rows)."""
+    from rich import box as rbox
+
+    ob, oa = before["opts"], after["opts"]
+    for k in sorted(set(ob) | set(oa)):
+        vb, va = ob.get(k, OPT_DEFAULTS[k]), oa.get(k, OPT_DEFAULTS[k])
+        if vb == va:
+            continue
+        if k == "box":
+            table.box = None if va is None else (custom_box() if va == "CUSTOM" else getattr(rbox, va))
+        elif k == "padding":
+            table.padding = va if isinstance(va, int) else tuple(va)      # the property setter unpacks
+        elif k == "expand":
+            table.expand = va
+        elif k in ("header_style", "footer_style"):
+            setattr(table, k, va or "")
+        elif k == "row_styles":
+            table.row_styles = list(va or [])
+        else:
+            setattr(table, k, va)
+    cb = [c for c in before["cols"] if not c.get("late")]
+    ca = [c for c in after["cols"] if not c.get("late")]
+    assert len(cb) == len(ca), "history: the columns present before the rows must be the same"
+    for column, b0, a0 in zip(table.columns, cb, ca):
+        for k in ("header", "footer"):
+            if b0[k] != a0[k]:
+                setattr(column, k, build_cell(a0[k]))
+        for k, d in COL_DEFAULTS.items():
+            vb, va = b0.get(k, d), a0.get(k, d)
+            if vb != va:
+                setattr(column, k, (va or "") if k.endswith("style") else va)
+    rb, ra = before["rows"], after["rows"]
+    assert len(rb) <= len(ra)
+    n_early = len(ca)
+    for k, (r0, r1) in enumerate(zip(rb, ra)):
+        for ci in range(n_early):
+            c0 = r0["cells"][ci] if ci < len(r0["cells"]) else ("none",)
+            c1 = r1["cells"][ci] if ci < len(r1["cells"]) else ("none",)
+            if c0 != c1:
+                new = build_cell(c1)
+                table.columns[ci]._cells[k] = "" if new is None else new
+        if r0.get("end_section", False) != r1.get("end_section", False):
+            table.rows[k].end_section = r1.get("end_section", False)
+    for r in ra[len(rb):]:
+        table.add_row(*[build_cell(cs) for cs in r["cells"][:n_early]], end_section=r.get("end_section", False), style=r.get("style"))
+    lb = [c for c in before["cols"] if c.get("late")]
+    la = [c for c in after["cols"] if c.get("late")]
+    assert la[: len(lb)] == lb
+    for c in la[len(lb):]:
+        kw = {k: c.get(k, d) for k, d in COL_DEFAULTS.items()}
+        table.add_column(build_cell(c["header"]), build_cell(c["footer"]), **{k: (v or None) if k.endswith("style") else v for k, v in kw.items()})
+    return table
+
+
 def plain_lines(segments):
     text = "".join(s.text for s in segments if not s.is_control)
     if text == "":
@@ -903,18 +968,40 @@ class Bundle:
         ctx = self.ctx
         avail = spec["avail"]
         console = make_console(avail, spec.get("env"))
-        table = build_table(spec)
+        pre = spec.get("pre")
+        if pre is None:
+            table = build_table(spec)
+        else:
+            # a RE-RENDER history: the same object is built in an earlier state, rendered (and measured) once, changed through its
+            # attributes / add_row / add_column into the state `spec` describes, and only then rendered for the checks below —
+            # the model, the theorems and a freshly built table know nothing of the earlier render
+            table = build_table(pre["spec"])
+            c0 = make_console(pre["avail"], spec.get("env"))
+            first = real_answer(c0, table, incoming_options(c0, pre["spec"]))[0]
+            mutate_table(table, pre["spec"], spec)
+            ctx.note("table:history:" + pre.get("kind", "?"))
+            fresh = real_answer(console, build_table(spec), incoming_options(console, spec))[0]
+            again = real_answer(console, table, incoming_options(console, spec))[0]
+            ctx.check(again == fresh, "rerender_equals_fresh", {"before": pre["spec"], "first_width": pre["avail"], "after": spec},
+                      f"rendered once at width {pre['avail']}, changed ({pre.get('kind')}), rendered again at width {avail}: "
+                      f"{again[:160]!r}; a freshly built table in the same state renders {fresh[:160]!r} (first render: {first[:60]!r})")
         text, padded, ncols = encode_variant(flags, self.pool, self.console, table, avail, spec)
         # add_row: every column present when the rows were added, or created by them, holds one cell per row, and the cell in
         # row k of column c IS (by identity) the object passed as argument c of the k-th add_row; a missing argument (or None) is
         # "", and a column created by row k0 holds a blank for every earlier row.  Computed from what was passed, not from the table.
-        n_before, passed = table._verif_passed
+        n_before, passed = table._verif_passed if pre is None else (len([c for c in spec["cols"] if not c.get("late")]), None)
         nlate = sum(1 for c in spec["cols"] if c.get("late"))
         cols_now = table.columns[: len(table.columns) - nlate] if nlate else table.columns
-        n_expected = max([n_before] + [len(p) for p in passed])
-        ok = len(cols_now) == n_expected and len(table.rows) == len(passed)
-        why = f"{len(cols_now)} columns for rows of {[len(p) for p in passed]} cells on {n_before} declared columns"
-        if ok:
+        if passed is None:      # a history: the cells were put there by mutate_table; only the rectangular shape is checked
+            ok = all(len(c._cells) == len(table.rows) for c in cols_now)
+            why = f"columns hold {[len(c._cells) for c in table.columns]} cells for {len(table.rows)} rows"
+            passed = []
+            n_expected = len(cols_now)
+        else:
+            n_expected = max([n_before] + [len(p) for p in passed])
+            ok = len(cols_now) == n_expected and len(table.rows) == len(passed)
+            why = f"{len(cols_now)} columns for rows of {[len(p) for p in passed]} cells on {n_before} declared columns"
+        if ok and pre is None:
             ncols_so_far = n_before
             created_at = {}
             for k, p in enumerate(passed):
